@@ -10,7 +10,10 @@ EXTENDS Integers, Sequences, TLC, IOUtils
 \* failAt: index of the client statement (counted from the start of the call) the database fails, 0 = none;
 \* repfails: transport failures of BranchReport before it succeeds
 Scen == {s \in [mode : {"auto", "explicit"}, kind : {"ins", "upd", "del", "upsh", "upsm"}, rows : 0..2,
-               reg : {"ok", "conflict", "fail", "neterr"}, failAt : 0..9, repfails : {0, 1, 2, 5}] :
+               reg : {"ok", "conflict", "fail", "neterr"}, failAt : 0..9, repfails : {0, 1, 2, 5},
+               then : {"none", "upd0", "del0"}] :
+           \* then: a second statement in the same explicit local transaction that matches no row (its images are empty)
+           /\ s.then # "none" => (s.mode = "explicit" /\ s.reg = "ok" /\ s.failAt = 0 /\ s.repfails = 0)
            /\ s.kind \in {"ins", "upsh", "upsm"} => s.rows >= 1
            /\ s.kind \in {"upsh", "upsm"} => s.rows = 1
            /\ s.reg # "ok" => (s.failAt = 0 /\ s.repfails = 0)
